@@ -18,7 +18,7 @@ def key_of(state):
     return ';'.join('/'.join(map(str, p)) or 'W' for p in state)
 
 
-def bases(tier):
+def bases(tier, which='C09'):
     """(base antichain, deepest resolution splits may reach, edit depth k)"""
     out = []
     kw = 5 if tier == 'quick' else 6
@@ -36,7 +36,7 @@ def bases(tier):
             else:
                 deep.append((f, n) + (d,) * (r - 2) + ((d + 1) % 4,))
     for p in sorted(set(deep)):
-        out.append(([p], min(rm.res(p) + 3, 29), 4 if tier == 'quick' else 5))
+        out.append(([p], min(rm.res(p) + 3, 29), (5 if which == 'C09' else 4) if tier == 'quick' else 5))
     return out
 
 
@@ -187,7 +187,7 @@ def explore(which, tier, acc):
     total_states = 0
     total_edges = 0
     ctx = multiprocessing.get_context('fork')
-    bs = bases(tier)
+    bs = bases(tier, which)
     bs = common.rotate(bs, common.seed())
     depth_hist = {}
     with ctx.Pool(common.NPROC) as pool:
